@@ -11,7 +11,7 @@ users.  Encodings are those of harness/impl/c09_taskq.py:
 from fractions import Fraction
 
 CLAUSES = ('order', 'fifo-on-ties', 'at-most-once', 're-add', 'remove-frame', 'empty',
-           'peek-small', 'peek-large', 'iter', 'other')
+           'peek-small', 'peek-large', 'iter', 'prio-identity', 'bookkeeping', 'error-path', 'other')
 
 
 class SortedListQueue:
@@ -60,10 +60,28 @@ def prio_of(enc):
     return Fraction(enc[1])
 
 
+def tag_of(enc):
+    """type-and-sign tag of the priority object an encoded priority denotes (see impl tag())."""
+    k, v = enc[0], Fraction(enc[1])
+    if k == 'I': return 'int:%d' % int(v)
+    if k == 'B': return 'bool:%r' % bool(int(v))
+    if k == 'Q': return 'Fraction:%s' % v
+    if k == 'Z': return 'float:-0.0'
+    return 'float:%r' % float(v)
+
+
+def strip(o):
+    """output without the priority tags"""
+    if o and o[0] == 'T': return o[:3]
+    if o and o[0] == 'L' and isinstance(o[1], list): return ['L', [x[:2] for x in o[1]]]
+    return o
+
+
 def ref_step(q, op):
     k = op[0]
+    tags = q.__dict__.setdefault('tags', {})
     if k == 'add':
-        q.add(prio_of(op[1]), op[2]); return ['N']
+        q.add(prio_of(op[1]), op[2]); tags[op[2]] = tag_of(op[1]); return ['N']
     if k == 'remove':
         q.remove(op[1]); return ['N']
     if k == 'clear':
@@ -71,17 +89,18 @@ def ref_step(q, op):
     if k == 'empty':
         return ['B', q.empty()]
     if k == 'iter':
-        return ['L', [[str(p), t] for p, t in q]]
+        return ['L', [[str(p), t, tags.get(t)] for p, t in q]]
     try:
         p, t = q.pop() if k == 'pop' else q.peek(bool(op[1]))
-        return ['T', str(p), t]
+        return ['T', str(p), t, tags.get(t)]
     except KeyError:
         return ['K']
 
 
 def run_reference(ops):
+    """reference outputs for the model-alphabet part of a history (python-only ops are flattened away)"""
     q = SortedListQueue()
-    return [ref_step(q, op) for op in ops]
+    return [ref_step(q, op) for op in flatten(ops, [])[0]]
 
 
 def _items_clause(exp, got, q, readded, gone):
@@ -126,8 +145,13 @@ def first_violation(ops, outs):
             gone[exp[2]] = 'popped'; readded_before = set(readded); readded.discard(exp[2])
         else:
             readded_before = readded
-        if got == exp:
+        tagged = (got[:1] == ['T'] and len(got) > 3) or (got[:1] == ['L'] and any(len(x) > 2 for x in got[1]))
+        if strip(got) == strip(exp):
+            if tagged and got != exp:
+                return (i, 'prio-identity', 'op %d %s: implementation %s, reference %s: the priority handed back is not the '
+                        'object that was added (type or sign changed): clause prio-identity' % (i, op, got, exp))
             continue
+        got, exp = strip(got), strip(exp)
         if got[0] == 'X' or got[0] != exp[0] and not ({got[0], exp[0]} <= {'T', 'K'}):
             clause = 'other'
         elif k == 'empty':
@@ -150,6 +174,88 @@ def first_violation(ops, outs):
     return None
 
 
+PYONLY = ('tasks', 'addbad', 'removebad', 'iterk')
+
+
+def flatten(ops, outs, probes=None):
+    """Histories may contain python-only ops.  Returns (flat ops, flat outs, flat probes, extras):
+    the flat history is over the model alphabet (inner ops of an interleaved iteration included);
+    extras = [('bad', i, out, probe before, probe after) | ('iterk', i, flat index before, flat index after, out)]."""
+    fo, fr, fp, extras = [], [], [], []
+    prev = None
+    for i, op in enumerate(ops):
+        o = outs[i] if i < len(outs) else ['X', 'missing']
+        pr = probes[i] if probes and i < len(probes) else None
+        k = op[0]
+        if k == 'tasks':
+            pass
+        elif k in ('addbad', 'removebad'):
+            extras.append(('bad', i, o, prev, pr))
+        elif k == 'iterk':
+            a = len(fo)
+            ok = o[0] == 'I' and len(o) >= 5
+            for n, inner in enumerate(op[2]):
+                io = o[3][n] if ok and n < len(o[3]) else ['X', 'missing']
+                ip = o[4][n] if ok and n < len(o[4]) else None
+                if inner[0] in ('addbad', 'removebad'):
+                    extras.append(('bad', i, io, prev, ip))
+                elif inner[0] not in PYONLY:
+                    fo.append(inner); fr.append(io); fp.append(ip)
+                prev = ip if ip is not None else prev
+            extras.append(('iterk', i, a, len(fo), o))
+        else:
+            fo.append(op); fr.append(o); fp.append(pr)
+        prev = pr if pr is not None else prev
+    return fo, fr, fp, extras
+
+
+def monitor(ops, res):
+    """First departure of a full implementation result {'outs', 'probes'} from the property:
+    outputs against the reference queue, bookkeeping after EVERY op, unhashable tasks, interleaved iteration.
+    Returns None or (index, clause, text)."""
+    fo, fr, fp, extras = flatten(ops, res['outs'], res.get('probes'))
+    v = first_violation(fo, fr)
+    if v:
+        return v
+    q = SortedListQueue()
+    contents = [[]]                                   # reference contents before flat op i / after the last
+    for i, op in enumerate(fo):
+        ref_step(q, op)
+        contents.append([[str(p), t] for p, t in q])
+        pr = fp[i]
+        if pr is None:
+            continue
+        n = len(contents[-1])
+        if pr[0] == 'X' or not (pr[1] == pr[2] and pr[0] - pr[2] == pr[3] == pr[5] == n and pr[4] == (n == 0)):
+            return (i, 'bookkeeping', 'after op %d %s: [len(_queue), _removed_counter, tombstones, len(_entry_finder), empty(), '
+                    'len(list(q))] = %s but the queue holds %d items: clause bookkeeping' % (i, op, pr, n))
+    for e in extras:
+        if e[0] == 'bad':
+            _, i, o, before, after = e
+            # remove() of an unhashable task may also "do nothing" (CPython's dict.pop on an EMPTY dict does not hash)
+            quiet = ops[i][0] == 'removebad' or any(x[0] == 'removebad' for x in (ops[i][2] if ops[i][0] == 'iterk' else []))
+            if not (o == ['X', 'TypeError'] or (quiet and o == ['N'])) or (before is not None and after != before):
+                return (i, 'error-path', 'op %d %s with an unhashable task: outcome %s, bookkeeping %s -> %s (expected TypeError '
+                        'and no change): clause error-path' % (i, ops[i], o, before, after))
+        else:
+            _, i, a, b, o = e
+            if o[0] != 'I':
+                return (i, 'iter', 'op %d %s: interleaved iteration failed with %s: clause iter' % (i, ops[i], o))
+            seq = [x[:2] for x in o[1] + o[2]]
+            ts, ids = [Fraction(x[0]) for x in seq], [x[1] for x in seq]
+            member = contents[a] + contents[b]
+            why = ('times decrease' if any(x > y for x, y in zip(ts, ts[1:])) else
+                   'a task is yielded twice' if len(set(ids)) != len(ids) else
+                   'an item that was never queued is yielded' if any(x not in member for x in seq) else
+                   'the items before the modification are not the head of the queue' if o[1] and
+                   [x[:2] for x in o[1]] != contents[a][:len(o[1])] else None)
+            if why:
+                return (i, 'iter', 'op %d %s: iterating while the queue is modified yields %s + %s (%s); queue before %s, '
+                        'after %s: clause iter' % (i, ops[i], o[1], o[2], why, contents[a], contents[b]))
+    return None
+
+
 def check_property(ops, outs):
-    v = first_violation(ops, outs)
+    fo, fr, _, _ = flatten(ops, outs)
+    v = first_violation(fo, fr)
     return None if v is None else v[2]
